@@ -18,7 +18,7 @@ from ..core import VERIF, AnalysisError, Func, Module, Repo, Report, call_name, 
 from ..dataflow import DefUse
 from ..resolve import Resolver
 from ..sites import guard_chain
-from .util import canon, cguards
+from .util import canon, cguards, ckey
 
 BOOKKEEPING = {"entity_obj": "pre-built draftsman object", "footprint": "layout footprint, not a prototype attribute",
                "property_writes": "circuit-driven properties, applied separately"}
@@ -290,7 +290,7 @@ def run(repo: Repo, rep: Report, tier: str) -> None:
         for st, key in _deletions(f):
             n_del += 1
             kind, ev = _key_origin(f, key, st)
-            rep.check(kind != "other", "C09-R4", f"{f.short} deletes only compiler-owned placements ({norm(st)[:50]})", f"{kind}: {ev}", f.loc(st))
+            rep.check(kind != "other", "C09-R4", f"{f.short} deletes only compiler-owned placements ({ckey(f, st)})", f"{kind}: {ev}", f.loc(st))
     rep.floor("C09-R4", "deletion sites of placements", n_del, 3)
     # fixture: the matcher must still recognise a forbidden deletion
     fx = VERIF / "fixtures" / "c09_forbidden_delete.py"
